@@ -78,6 +78,18 @@ CHECKS = {
         design_ref='DESIGN.md 4/C20',
         note='Label text is trusted to str() (decided by C03). Declarations, flags and the system section of the file are not compared.',
     ),
+    'C06': dict(
+        engine='oracle-server + Hypothesis models x deterministic (block, token, fault) enumeration (harness/py/prop_C06.py, faults.py, tokenizer.py)',
+        technique='fault injection over generated models: one token-level fault per text block and token position, diagnostics checked against an independent ElementTree DOM of the same bytes (path uniqueness, line/column bounds, attribution, exact identifier range)',
+        category='fault_enumeration',
+        text=('For each generated accepted model with layout noise, every text block x spread token positions x applicable fault '
+              'kind is enumerated; each reported error/warning must carry a path selecting exactly one element, a line inside '
+              'that block, columns inside that line with start<=end, be attributed to the faulted block (all of them for '
+              'non-declaring labels) and, for an undeclared identifier, cover exactly the identifier.'),
+        design_ref='DESIGN.md 4/C06',
+        note=('In declaring blocks only syntax-breaking faults are injected (other edits can be valid declarations that break their '
+              'users). A mutation that yields no error anywhere is not a fault and is skipped (counted). XML input only in this revision.'),
+    ),
     'C18': dict(
         engine='rapidcheck + exhaustive loops (harness/cpp/c18.cpp)',
         technique='exhaustive enumeration over int8_t + rapidcheck property-based testing over int32_t/double against set semantics in wide arithmetic',
